@@ -119,6 +119,16 @@ def build_api(case, work, with_mods):
         if case.get("ode_modifier"):
             kw["ode_modifier"] = {k: {"factors": [f[0] for f in v["factors"]], "reactants": v["reactants"]} for k, v in case["ode_modifier"].items()}
     net = Network(filelist=str(p), fileformats="naunet", **kw)
+    if with_mods:
+        # the caller goes on using its own dictionaries (e.g. for the next network of a parameter study): the network built above keeps
+        # the modifiers it was given
+        others = [e for e in case["eff_index"] if e != -1 and str(e) not in case["rate_modifier"]]
+        for e in others[:2]:
+            kw["rate_modifier"][int(e)] = "7.77e7"
+        # (only new top-level entries: the network takes a shallow copy of what it is given, the nested factor lists stay shared - asking for
+        #  more would go beyond the property)
+        if kw.get("ode_modifier") is not None:
+            kw["ode_modifier"]["__later__"] = {"factors": ["1.0"], "reactants": [[]]}
     proj = work / ("with" if with_mods else "without")
     net.to_code(method="dense", path=str(proj))
     return proj
